@@ -336,7 +336,66 @@ def r01_6(ctx: Ctx) -> None:
     ctx.check(ok, "R01.6", mk, st[0] if st else mk.node, "stored name = pathlib-normalised POSIX form of the given name", "the stored name is not pathlib.Path(arcname).as_posix()")
 
 
+def r01_10(ctx: Ctx) -> None:
+    """pieces and boundaries of the decode pipeline (each a necessary condition for 'whatever the internal block size / volume size'):
+    (a) reads of a DECLARED size from the archive handle are completed over short reads (a multi-volume file returns what the current
+        volume holds): the header fetch of _real_get_contents and the packed-header CRC fetch of Header._read go through a completing loop;
+    (b) a stage of the decoder chain hands on at most its declared size (7zAES pads its last block with zeros: the padding must not
+        reach the next coder);
+    (c) the branch-filter decoder wrappers never pass a piece straight to the library: the last bytes of a piece are held back until
+        more data or the end of the stream has arrived (the library flushes unconverted when fewer bytes than a unit are outstanding);
+    (d) AESDecompressor.decompress has an arm for 'less than one cipher block so far'."""
+    # (a)
+    n = 0
+    for mod, qual in (("py7zr", "SevenZipFile._real_get_contents"), ("archiveinfo", "Header._read")):
+        f = ctx.prog.func(mod, qual)
+        for c in q.calls(f):
+            if attr_tail(c) == "read" and isinstance(c.func, ast.Attribute) and norm(c.func.value) in ("self.fp", "fp") and c.args and not isinstance(c.args[0], ast.Constant):
+                n += 1
+                ctx.fail("R01.10", f, c, f"`{norm(c)}` fetches a declared number of bytes from the archive handle with a single read(): a multi-volume file returns a short read at "
+                         "a volume boundary, so an archive whose header straddles two volumes is refused ('invalid header data') although the bytes are all there",
+                         construct=f"single read of declared size in {f.name}")
+            if attr_tail(c) in ("read_fully",):
+                n += 1
+                ctx.ok("R01.10", f"{f.qname}: declared-size fetch goes through {attr_tail(c)}")
+    ctx.floor("R01.10", n, 1, "declared-size fetches from the archive handle")
+    # (b)
+    d = ctx.prog.func("compressor", "SevenZipDecompressor._decompress")
+    calls = [c for c in q.calls(d) if attr_tail(c) == "decompress"]
+    ctx.floor("R01.10", len(calls), 1, "stage calls in _decompress")
+    trims = [a for a in walk(d.node) if isinstance(a, ast.Assign) and isinstance(a.value, ast.Subscript) and isinstance(a.value.slice, ast.Slice)
+             and isinstance(a.targets[0], ast.Name) and norm(a.value.value) == a.targets[0].id]
+    uses_declared = any(isinstance(x, ast.Attribute) and x.attr == "_unpacksizes" for a in trims for x in ast.walk(q.expand_locals(d, a.value.slice.upper) if a.value.slice.upper is not None else a)) \
+        or any(any(isinstance(x, ast.Attribute) and x.attr == "_unpacksizes" for cd, pol in q.facts_at(d, a) for x in ast.walk(cd)) for a in trims)
+    ctx.check(bool(trims) and uses_declared, "R01.10", d, calls[0], "a stage's output is cut to its declared size before the next stage sees it",
+              "SevenZipDecompressor._decompress passes whatever a stage returns to the next stage: the zeros 7zAES pads its last block with reach the following coder "
+              "([BCJ, Copy, 7zAES] returns wrong bytes for members ending in a call opcode, [Brotli, 7zAES] fails to decode)", construct="stage output not trimmed")
+    # (c)
+    cmod = ctx.prog.module("compressor")
+    nw = 0
+    for cname, cls in sorted(cmod.classes.items()):
+        if not (cname.startswith("Bcj") or cname.startswith("BCJ")) or not cname.endswith("Decoder"):
+            continue
+        nw += 1
+        m = ctx.prog.method(cls, "decompress")
+        ctx.need(m is not None, f"{cname}.decompress not found")
+        direct = [c for c in q.calls(m) if attr_tail(c) == "decode" and c.args and isinstance(c.args[0], ast.Name) and c.args[0].id == m.params[1]
+                  and not q.assigned_values(m, m.params[1])]
+        ctx.check(not direct, "R01.10", m, direct[0] if direct else m.node, f"{cname} holds back the end of a piece",
+                  f"{cname}.decompress passes every piece straight to the library decoder: when a piece ends 1-3 bytes before the end of the stream the library flushes that "
+                  "tail unconverted (CrcError for X86+LZMA with small members, X86+Copy with 1 MiB + 1 bytes, ARM+PPMd ...)", construct=f"{cname} direct decode")
+    ctx.floor("R01.10", nw, 5, "branch filter decoder wrappers")
+    # (d)
+    a = ctx.prog.func("compressor", "AESDecompressor.decompress")
+    small = [t for t in walk(a.node) if isinstance(t, ast.If) and any(isinstance(x, ast.Compare) and isinstance(x.ops[0], ast.Lt) and isinstance(x.comparators[0], ast.Constant)
+                                                                     and x.comparators[0].value == 16 for x in ast.walk(t.test))]
+    ctx.check(bool(small), "R01.10", a, a.node, "AESDecompressor.decompress buffers input shorter than one cipher block",
+              "AESDecompressor.decompress has no arm for 'residue + new piece < 16 bytes': the slice index goes negative and an unaligned residue is decrypted "
+              "(ValueError: data must be padded), reachable with a volume size of 1 MiB + 5 on any archive ending in 7zAES", construct="aes short piece")
+
+
 def run(ctx: Ctx) -> None:
+    r01_10(ctx)
     shared.layout_agreement(ctx, "R01.9")
     shared.exits_do_not_swallow(ctx, "R01.8")
     r01_6(ctx)
